@@ -82,9 +82,9 @@ type reader struct {
 
 func (r reader) ReadByte() (byte, error) {
 	var b [1]byte
-	n, err := r.Read(b[:])
-	if n == 1 {
-		return b[0], nil
+	// io.ReadFull: a Read may legitimately return (0, nil), which is "nothing yet", not a zero byte
+	if _, err := io.ReadFull(r.Reader, b[:]); err != nil {
+		return 0, err
 	}
-	return 0, err
+	return b[0], nil
 }
